@@ -21,7 +21,9 @@ def run_unit(args, timeout=3600):
     if rc != 0:
         raise C.MachineryError("fcv-unit %s failed rc=%s: %s" % (" ".join(args), rc, err.decode("utf-8", "replace")[-2000:]))
     viol, summary = [], None
-    for line in out.decode("utf-8", "replace").splitlines():
+    # (split on LF only: str.splitlines() also splits at U+0085, U+2028, FF ... which occur inside the JSON strings)
+    for raw in out.split(b"\n"):
+        line = raw.decode("utf-8", "replace")
         if not line.strip():
             continue
         j = json.loads(line)
